@@ -64,8 +64,12 @@ impl OperationControl for Repeat {
 
     fn optimize(self, flags: &ReFlags) -> Operation {
         let operation = self.operation.optimize(flags);
-        let min = if self.min == 0 && operation.matches_empty_string() == MATCHES_ZLS_ANYWHERE {
-            // turns (a?)* into (a?)+
+        let min = if self.min == 0
+            && self.greedy
+            && operation.matches_empty_string() == MATCHES_ZLS_ANYWHERE
+        {
+            // turns (a?)* into (a?)+ (a reluctant repeat prefers zero
+            // iterations to one, so for it the two are not the same)
             1
         } else {
             self.min
